@@ -110,14 +110,23 @@ def forbidden_scan(modules=None):
 
 
 class BuildLock:
+    """exclusive lock around "regenerate lean/Generated + lake build" (re-entrant within one process)"""
+    _depth = 0
+    _f = None
+
     def __enter__(self):
-        self.f = open(os.path.join(LEAN, ".build.lock"), "w")
-        fcntl.flock(self.f, fcntl.LOCK_EX)
+        if BuildLock._depth == 0:
+            BuildLock._f = open(os.path.join(LEAN, ".build.lock"), "w")
+            fcntl.flock(BuildLock._f, fcntl.LOCK_EX)
+        BuildLock._depth += 1
         return self
 
     def __exit__(self, *a):
-        fcntl.flock(self.f, fcntl.LOCK_UN)
-        self.f.close()
+        BuildLock._depth -= 1
+        if BuildLock._depth == 0:
+            fcntl.flock(BuildLock._f, fcntl.LOCK_UN)
+            BuildLock._f.close()
+            BuildLock._f = None
 
 
 def lake_build(targets, timeout=3000):
